@@ -24,6 +24,10 @@ func main() {
 		engine.DebugMiss(*repo, strings.TrimPrefix(*debug, "miss:"))
 		return
 	}
+	if *debug == "items" {
+		engine.DebugItems(*repo)
+		return
+	}
 	if *debug == "ctx" {
 		engine.DebugCtx(*repo)
 		return
